@@ -430,9 +430,14 @@ func doFsPut(o *vh.Out, rootRel, fullRel string) {
 		return
 	}
 	root, full := s+rootRel, s+fullRel
-	data, rerr := os.ReadFile(full)
+	// the block data is what the lexically cleaned path holds: Put cleans FullPath lexically, so
+	// "root/link/../f" denotes "root/f" for the filestore although the kernel would resolve it to "outside/../f"
+	data, rerr := os.ReadFile(filepath.Clean(full))
 	if rerr != nil {
 		data = []byte("unreadable")
+	}
+	if d2, err2 := os.ReadFile(full); (err2 == nil) != (rerr == nil) || string(d2) != string(data) && rerr == nil {
+		o.Kind("fs-dotdot-after-symlink-differs")
 	}
 	fm := filestore.NewFileManager(dssync.MutexWrap(ds.NewMapDatastore()), root)
 	fm.AllowFiles = true
